@@ -32,8 +32,35 @@ def oracle(ctx, c):
                 return
 
 
+def selection_oracle(ctx, c):
+    """'selecting shards by metadata returns all and only the examples written under that metadata' — in every interface"""
+    impl = c["impl"]
+    sels = (impl["listing"] or {}).get("selections")
+    if not sels:
+        return 0
+    written = {}
+    for recs in impl["records"]:
+        for r in recs:
+            if r["out"] == "ok":
+                written.setdefault((r["split"], r["md"]), []).append(r["ex"])
+    for x in sels:
+        if x["md"] == 0:
+            continue            # examples written without metadata are unconstrained
+        want = sorted(written.get((x["split"], x["md"]), []))
+        if "error" in x:
+            ctx.report({"kind": "select-error", "iface": x["iface"]}, f"{c['fmt']} {x['iface']}: selecting the shards labelled {x['md']} raised {x['error']}", {"case": F.slim(c), "selection": x})
+        elif not (set(want) <= set(x["got"]) and len(x["got"]) == len(set(x["got"]))
+                  and set(x["got"]) - set(want) <= set(written.get((x["split"], 0), []))):
+            # (examples written *without* metadata are unconstrained: an unlabelled shard adopts the first non-empty value)
+            ctx.report({"kind": "select", "iface": x["iface"]},
+                       f"{c['fmt']} {x['iface']}: selecting the shards labelled with metadata {x['md']} in split {x['split']} yields {x['got']} but {want} were written under it",
+                       {"case": F.slim(c), "selection": x, "written": want})
+    return len(sels)
+
+
 def run(ctx):
     cases = F.explore(ctx, "C11")
+    ctx.cov["selections_by_metadata"] = sum(selection_oracle(ctx, c) for c in cases)
     for c in cases:
         oracle(ctx, c)
     F.finish(ctx, "C11", cases, "Sedpack.Fill.C11_md_labels")
